@@ -1,5 +1,6 @@
 import Stackage.Driver.Parse
 import Stackage.Spec.Grammar
+import Stackage.Model.Options
 
 namespace Stackage.Driver
 open Stackage
@@ -15,6 +16,35 @@ def runRender (payload : String) : String × String × String :=
   | .stk _ c xs =>
     let s : Stk := { cfg := c, xs := xs }
     ("S" ++ hx (s.String closures), "S" ++ hx (Grammar.canon closures s), "")
+  | _ => ("BADCASE", "BADCASE", "")
+
+/-- apply a tri-state option to the root (".") or to the direct child stack at index `i` -/
+def optAt (s : Stk) (target : String) (flag : Nat) (st : Option Bool) : Stk :=
+  if target == "." then { s with cfg := s.cfg.setState flag st }
+  else
+    let i := toNat target
+    { s with xs := s.xs.mapIdx (fun k v =>
+        if k == i then (match v with | .stk f c xs => .stk f (c.setState flag st) xs | w => w) else v) }
+
+def runRerender (payload : String) : String × String × String :=
+  match payload.splitOn " | " with
+  | [tree, ops] =>
+    match (parseVal (words tree)).1 with
+    | .stk _ c xs =>
+      let s0 : Stk := { cfg := c, xs := xs }
+      let step (render : Stk → Text) (acc : Stk × List String) (o : String) : Stk × List String :=
+        match words o with
+        | ["render"] => (acc.1, ("S" ++ hx (render acc.1)) :: acc.2)
+        | ["opt", tgt, name, v] =>
+          let flag := if name == "paren" then Gen.flag_parens else if name == "fold" then Gen.flag_cfold
+                      else if name == "nopad" then Gen.flag_nspad else Gen.flag_lonce
+          let st : Option Bool := if v == "t" then none else some (v == "1")
+          (optAt acc.1 tgt flag st, "-" :: acc.2)
+        | _ => (acc.1, "BADOP" :: acc.2)
+      let m := ((ops.splitOn " ; ").foldl (step (fun s => s.String closures)) (s0, [])).2.reverse
+      let sp := ((ops.splitOn " ; ").foldl (step (fun s => Grammar.canon closures s)) (s0, [])).2.reverse
+      (" ; ".intercalate m, " ; ".intercalate sp, "")
+    | _ => ("BADCASE", "BADCASE", "")
   | _ => ("BADCASE", "BADCASE", "")
 
 def runStrUnit (payload : String) : String × String × String :=
